@@ -113,6 +113,10 @@ def enumerate_faults(world, opts, facts):
                     out.append(_cellfault("zero_spot", "in_spot_empty", name, tt, i, "spot_price", None))
                     if "crypto_fee" in hdr and "fiat_fee" in hdr:
                         out.append(_cellfault("both_fees", "both_fees", name, tt, i, "crypto_fee", Decimal("0.00000001"), also={"fiat_fee": Decimal("1.25")}))
+                        # "mutually exclusive": both cells assigned, one of them (or both) with a literal 0
+                        out.append(_cellfault("both_fees", "both_fees_crypto_zero", name, tt, i, "crypto_fee", Decimal(0), also={"fiat_fee": Decimal("1.25")}))
+                        out.append(_cellfault("both_fees", "both_fees_fiat_zero", name, tt, i, "crypto_fee", Decimal("0.00000001"), also={"fiat_fee": Decimal(0)}))
+                        out.append(_cellfault("both_fees", "both_fees_both_zero", name, tt, i, "crypto_fee", Decimal(0), also={"fiat_fee": Decimal(0)}))
                 elif tt == "OUT":
                     if r["transaction_type"] != "FEE":
                         out.append(_cellfault("nonpositive", "crypto_out_zero", name, tt, i, "crypto_out_no_fee", 0))
